@@ -218,7 +218,9 @@ class SamplePosterior(Contract):
                         for fc in (0, 1):
                             if ck == "none" and (ff or fc):
                                 continue
-                            out.append({"sampler": sampler, "ck": ck, "rng": rng, "file_flow": ff, "file_ckpt": ff and fc, "file_config": fc, "save_config": 1})
+                            for fcs in (("smc", "importance") if fc else ("smc",)):
+                                out.append({"sampler": sampler, "ck": ck, "rng": rng, "file_flow": ff, "file_ckpt": ff and fc and fcs == "smc", "file_config": fc, "save_config": 1,
+                                            "file_config_sampler": fcs})
         out += [{"sampler": "smc", "ck": "explicit", "rng": 0, "file_flow": 0, "file_ckpt": 0, "file_config": 1, "save_config": 0},
                 {"sampler": "smc", "ck": "explicit", "rng": 0, "file_flow": 1, "file_ckpt": 1, "file_config": 1, "save_config": 0, "file_config_sampler": "smc"}]
         return out
@@ -238,8 +240,12 @@ class SamplePosterior(Contract):
             kw["checkpoint_every"] = IV(z3.Int("checkpoint_every"))
             kw["checkpoint_save_config"] = B(bool(shape["save_config"]))
         elif shape["ck"] == "defaults":
+            # flags of the surrounding auto_checkpoint context: any history of earlier operations inside the same context
+            sc0, sf0 = z3.Bool("saved_config0"), z3.Bool("saved_flow0")
+            p.assume(z3.Implies(sf0, z3.BoolVal(bool(shape["file_flow"]))))          # saved_flow => the flow is in the file
+            p.assume(z3.Implies(sc0, z3.BoolVal(bool(shape["file_config"]))))
             d = PyDict({"path": path, "every": IV(z3.Int("defaults_every")), "save_config": B(bool(shape["save_config"])), "save_flow": B(True),
-                        "saved_config": B(False), "saved_flow": B(False)})
+                        "saved_config": B(sc0), "saved_flow": B(sf0)})
             a.f["_checkpoint_defaults"] = d
             a.absent.discard("_checkpoint_defaults")
             g["defaults"] = d
@@ -310,6 +316,10 @@ class SamplePosterior(Contract):
             root = fs(I)[skey(g["path"])]
             for nm, gl in file_inv(I, root, a, tag):
                 p.prove(gl, f"{q}:C14:{nm}")
+            if "defaults" in g:
+                dd = g["defaults"].d
+                p.prove(z3.Implies(I.truth(dd["saved_flow"]), z3.BoolVal("flow" in root.f["members"].d)), f"{q}:C14:context flag saved_flow implies the flow is in the file {tag}")
+                p.prove(z3.Implies(I.truth(dd["saved_config"]), z3.BoolVal("aspire_config" in root.f["members"].d)), f"{q}:C14:context flag saved_config implies the configuration is in the file {tag}")
             if "aspire_config" in root.f["members"].d and sh["save_config"]:
                 st = root.f["members"].d["aspire_config"].f.get("sampler_type")
                 p.prove(z3.BoolVal(isinstance(st, Str) and st.v == sh["sampler"]), f"{q}:C14:the stored configuration names the sampler type that ran {tag}")
@@ -349,7 +359,10 @@ class Fit(Contract):
             kw["checkpoint_path"] = path
             kw["overwrite"] = B(bool(shape["overwrite"]))
         elif shape["ck"] == "defaults":
-            a.f["_checkpoint_defaults"] = PyDict({"path": path, "every": IV(1), "save_config": B(True), "save_flow": B(True), "saved_config": B(False), "saved_flow": B(False)})
+            sc0, sf0 = z3.Bool("saved_config0"), z3.Bool("saved_flow0")
+            I.path.assume(z3.Implies(sf0, z3.BoolVal(bool(shape["file_flow"]))))
+            I.path.assume(z3.Implies(sc0, z3.BoolVal(bool(shape["file_config"]))))
+            a.f["_checkpoint_defaults"] = PyDict({"path": path, "every": IV(1), "save_config": B(True), "save_flow": B(True), "saved_config": B(sc0), "saved_flow": B(sf0)})
             a.absent.discard("_checkpoint_defaults")
             kw["overwrite"] = B(bool(shape["overwrite"]))
         if shape["ck"] != "none":
